@@ -33,6 +33,10 @@ Keys / security (Lite, Lite-S)
                     verified against the model's own WCNT; success increments WCNT.  STATE 92h is writable only
                     that way; byte 0 = 01h sets EXT_AUTH (external / mutual authentication).
     model.wcnt_limit : WCNT value from which on writes with MAC are refused (default FFFFFFh, i.e. never)
+    model.wcnt_counts: which executed Write commands advance WCNT (Lite-S): "mac" (default) writes with MAC_A only,
+                       "nv" also every plain write that programmed non-volatile memory, "all" also writes of the RC
+                       block.  A reader can not tell which (nor what other readers wrote): it has to read WCNT right
+                       before every write with MAC; checks may enumerate the three rules.
     MC (88h)      : bytes 0-1 MC_SP (bit n = block n writable, bit 14 REG; bits only go 1 -> 0), byte 2 MC_ALL
                     (FFh system blocks 82h,84h,86h,87h,88h writable; anything else: locked for good), byte 3 SYS_OP
                     (bit 0 NDEF), byte 4 RF_PRM; Lite-S: byte 5 MC_CKCKV_W_MAC_A, 6-7 read needs EXT_AUTH,
@@ -45,7 +49,8 @@ Observation
     model.on_state_change()  is called after every command that programmed persistent memory
     model.power_cycle()      clears RC / session key / EXT_AUTH / selected system
 Tampering
-    Tamper(model, fn) wraps a model as a man-in-the-middle (see class Tamper at the end of this file).
+    Tamper(model, fn, sense_fn=None) wraps a model as a man-in-the-middle for the command responses and (sense_fn)
+    for the SENSF_RES of the discovery (see class Tamper at the end of this file).
 Frames  `LEN CMD ...`; LEN counts itself; commands for a different IDm, with a wrong LEN or an unknown command code
 are not answered (None -> TimeoutError at the reader).  Errors in a Read/Write are answered `0C 07|09 IDm SF1 SF2`.
 Simplifications (documented): REG (0Eh) is a plain block (no subtraction semantics); timing (PMm) is not modelled;
@@ -85,6 +90,7 @@ class T3TModel(object):
         self.ndef_system_first = True
         self.ndef_area = set()
         self.wcnt_limit = 0xFFFFFF      # Lite-S: no write with MAC once WCNT is exhausted
+        self.wcnt_counts = "mac"        # Lite-S: which executed writes advance WCNT ("mac" | "nv" | "all")
         # volatile
         self.rc_block = None
         self.ext_auth = False
@@ -526,7 +532,10 @@ class T3TModel(object):
             self.blocks[0x88] = new
         else:
             self.blocks[n] = bytearray(d)
-        if with_mac:
+        counted = with_mac
+        if self.kind == "lites" and not with_mac:
+            counted = (self.wcnt_counts in ("nv", "all") and persistent) or (self.wcnt_counts == "all" and n == 0x80)
+        if counted and (with_mac or self.wcnt < 0xFFFFFF):
             w = self.wcnt + 1
             self.blocks[0x90][0:3] = bytes([w & 0xFF, w >> 8 & 0xFF, w >> 16 & 0xFF])
             persistent = True
@@ -611,11 +620,14 @@ def selftest():
 class Tamper(object):
     """Man-in-the-middle stage in front of a model: fn(n, command, genuine_response) -> response to deliver
     (bytes, b"" or None for silence); n counts the commands seen since `enabled` was last set to True.
-    The genuine model still executes every command.  Everything else is delegated to the inner model."""
+    The genuine model still executes every command.  Everything else is delegated to the inner model.
+    sense_fn(target, genuine RemoteTarget | None) -> RemoteTarget | None replaces the discovery answer (SENSF_RES)
+    independently of `enabled`."""
 
-    def __init__(self, inner, fn, enabled=True):
+    def __init__(self, inner, fn, enabled=True, sense_fn=None):
         self.inner = inner
         self.fn = fn
+        self.sense_fn = sense_fn
         self.n = 0
         self._enabled = enabled
         self.on_state_change = lambda: None
@@ -637,10 +649,13 @@ class Tamper(object):
     any_bitrate = True
 
     def sense(self, target):
-        return self.inner.sense(target)
+        found = self.inner.sense(target)
+        if self.sense_fn is not None:
+            return self.sense_fn(target, found)
+        return found
 
     def target(self):
-        return self.inner.target()
+        return self.sense(nfc.clf.RemoteTarget(self.inner.brty))
 
     def power_cycle(self):
         self.inner.power_cycle()
